@@ -24,8 +24,6 @@ import (
 type setupTx struct {
 	Type   string `json:"type"`
 	Serial int64  `json:"serial"`
-	f      func(cc contract.CallContext, txID []byte) error
-	err    error
 }
 
 var (
@@ -33,8 +31,37 @@ var (
 	setupOnce   sync.Once
 )
 
+// the transaction list may re-create the object from its bytes, so the
+// function and its result live in a registry keyed by the serial number
+type setupEntry struct {
+	f   func(cc contract.CallContext, txID []byte) error
+	err error
+	ran bool
+}
+
+var (
+	setupMu      sync.Mutex
+	setupEntries = map[int64]*setupEntry{}
+)
+
 func newSetupTx(f func(cc contract.CallContext, txID []byte) error) *setupTx {
-	return &setupTx{Type: "verif-setup", Serial: atomic.AddInt64(&setupSerial, 1), f: f}
+	t := &setupTx{Type: "verif-setup", Serial: atomic.AddInt64(&setupSerial, 1)}
+	setupMu.Lock()
+	setupEntries[t.Serial] = &setupEntry{f: f}
+	setupMu.Unlock()
+	return t
+}
+
+// result removes the registry entry and tells whether the function ran and its error.
+func (t *setupTx) result() (bool, error) {
+	setupMu.Lock()
+	defer setupMu.Unlock()
+	e := setupEntries[t.Serial]
+	delete(setupEntries, t.Serial)
+	if e == nil {
+		return false, nil
+	}
+	return e.ran, e.err
 }
 
 func registerSetupTx() {
@@ -64,8 +91,14 @@ func (t *setupTx) Execute(ctx contract.Context, wcs state.WorldSnapshot, estimat
 	r := txresult.NewReceipt(ctx.Database(), ctx.Revision(), t.To())
 	cc := contract.NewCallContext(ctx, big.NewInt(1<<62), false)
 	defer cc.Dispose()
-	if t.f != nil {
-		t.err = t.f(cc, t.ID())
+	setupMu.Lock()
+	e := setupEntries[t.Serial]
+	setupMu.Unlock()
+	if e != nil && e.f != nil {
+		err := e.f(cc, t.ID())
+		setupMu.Lock()
+		e.err, e.ran = err, true
+		setupMu.Unlock()
 	}
 	cc.UpdateSystemInfo()
 	r.SetResult(module.StatusSuccess, big.NewInt(0), big.NewInt(0), nil)
